@@ -8,38 +8,47 @@ From TD Require Gen.C06_Sites.
 Open Scope string_scope.
 Open Scope list_scope.
 
-(* -------- the full statement, kept visible: FALSE of the faithful model (refutations below) *)
+(* -------- the full statement, kept visible: still FALSE of the faithful model because of D62 (memmap_ builds no lock graph:
+   a nested node unlocks alone — the lock graph's defect D7) and D65 (lazy stacks memoise stacked copies); see the refutations *)
 Definition permitted (s : state) (o : op) : Prop := exists hk, snd (step repo hk s o) = Done.
 Definition C06_cache_sound_full_statement : Prop :=
-  forall U hk s ops, objs_consistent U -> Good U s ->
+  forall U hk s ops, objs_consistent U ->
     (forall pre o post, ops = pre ++ o :: post -> permitted (run repo hk s pre) o) ->
     forall pre p m a k post, ops = pre ++ ORead p m a k :: post ->
     forall acc v b, snd (read hk (run repo hk s pre) p m a k) = Some (acc, v, b) ->
     exists n, find_node (run repo hk s pre) p = Some n /\ v = fresh (run repo hk s pre) n m a k.
 
-(* -------- cache_sound_partial: all histories whose writes under lock are in-place value writes.
-   Any tree of TensorDicts (any depth, any locked sub-forest with its lock graph), any interleaving of memoised reads (hit,
-   miss, not locked; verification hook on or off), in-place writes, lock_/unlock_ at any node (accepted or refused),
-   structural writes (accepted where the owner is unlocked, refused under lock): every read returns exactly what a fresh
-   computation returns.  Hypotheses: objects occurring in the calls are determined by their address (no address reuse),
-   keyword arguments listed in sorted order. *)
-Theorem C06_cache_sound_partial : forall U hk s ops,
-  objs_consistent U -> Good U s -> Forall (clean_op U) ops ->
+(* -------- cache_sound ([repo] = /repo with the fix: commits of D19/D60, D61, D63, S11, D64, D66, D67).
+   Any tree of TensorDicts (any depth, any locked sub-forest with its lock graph), any interleaving of memoised reads (hit, miss,
+   not locked; verification hook on or off), in-place writes, lock_/unlock_ at any node (accepted or refused), structural writes
+   (accepted where the owner is unlocked, refused under lock) AND the writes that are accepted under lock — non-tensor promotion,
+   make_memmap / _from_tensor / _from_storage, names and batch_size assignment at any node: every read returns exactly what a
+   fresh computation returns.  Hypotheses: objects occurring in the calls are determined by their address (guaranteed by CPython
+   now that every entry keeps its arguments alive, D67), keyword arguments listed in sorted order.
+   Outside: memmap_() of a tree (D7/D62), lazy stacks (D65). *)
+Theorem C06_cache_sound : forall U hk s ops,
+  objs_consistent U -> Good U s -> Forall (permitted_op U) ops ->
   forall pre p m a k post, ops = pre ++ ORead p m a k :: post ->
   forall acc v b, snd (read hk (run repo hk s pre) p m a k) = Some (acc, v, b) ->
   exists n, find_node (run repo hk s pre) p = Some n /\ v = fresh (run repo hk s pre) n m a k.
-Proof. exact cache_sound_partial. Qed.
-Print Assumptions C06_cache_sound_partial.
+Proof. exact cache_sound_repaired. Qed.
+Print Assumptions C06_cache_sound.
 
-(* the invariant behind it (every memoised entry equals a fresh call; unlocked nodes hold no entry; the lock graph is closed)
-   is kept by every step *)
-Theorem C06_invariant_step : forall U hk s o, objs_consistent U -> Good U s -> clean_op U o -> Good U (fst (step repo hk s o)).
-Proof. exact step_good. Qed.
+(* the invariant behind it (every memoised entry equals a fresh call; unlocked nodes hold no entry; the lock graph is closed and
+   registered) is kept by every permitted step *)
+Theorem C06_invariant_step : forall U hk s o, objs_consistent U -> Good U s -> permitted_op U o -> Good U (fst (step repo hk s o)).
+Proof. exact step_good_repaired. Qed.
 Print Assumptions C06_invariant_step.
+
+(* the clean fragment does not depend on the repairs: it holds for the library before them as well *)
+Theorem C06_cache_sound_partial_any_version : forall fx U hk s o,
+  objs_consistent U -> Good U s -> clean_op U o -> Good U (fst (step fx hk s o)).
+Proof. exact step_good_any. Qed.
+Print Assumptions C06_cache_sound_partial_any_version.
 
 (* the object a caller holds keeps showing what a fresh call shows while in-place writes go on *)
 Theorem C06_held_result_tracks_inplace : forall U hk writes s p n m a k,
-  Good U s -> find_node s p = Some n ->
+  objs_consistent U -> Good U s -> find_node s p = Some n ->
   exists n', find_node (run repo hk s (map (fun pv => OInplace (fst pv) (snd pv)) writes)) p = Some n'
              /\ fresh (run repo hk s (map (fun pv => OInplace (fst pv) (snd pv)) writes)) n' m a k = fresh s n m a k.
 Proof. exact held_result_tracks_inplace. Qed.
@@ -58,17 +67,11 @@ Theorem C06_key_determines_call : forall U a k a' k',
 Proof. exact key_determines_call. Qed.
 Print Assumptions C06_key_determines_call.
 
-(* refuted without liveness: a dead object's address can be taken by another object ... *)
+(* without liveness the key would not determine the call (a dead object's address can be taken by another object): this is why
+   D67's repair keeps the arguments alive with the entry *)
 Theorem C06_key_injective_refuted : exists a a' k, a <> a' /\ make_cache_key a k = make_cache_key a' k.
 Proof. exact key_injective_needs_liveness. Qed.
 Print Assumptions C06_key_injective_refuted.
-(* ... and a memoised list does not keep its is_leaf argument alive: a stale hit (private _values_list(collapse=True, is_leaf=f)) *)
-Theorem C06_address_reuse_refuted :
-  stale_hit (run repo false w0 [ORead [] MValuesList [ABool true; ABool true] (kw_collapse f_tensors)])
-            [] MValuesList [ABool true; ABool true] (kw_collapse f_all).
-Proof. exact refuted_address_reuse. Qed.
-Print Assumptions C06_address_reuse_refuted.
-
 (* -------- unlock_erases: after unlock_ (accepted or refused) no node at or below holds an entry; lock_ adds none *)
 Theorem C06_unlock_erases : forall s p n,
   In n (nodes (fst (unlock_ s p))) -> is_prefix p (n_path n) = true -> snd (unlock_ s p) <> NoSuchTarget -> n_cache n = [].
@@ -80,13 +83,6 @@ Theorem C06_lock_adds_no_entry : forall s p n', In n' (nodes (fst (lock_ s p))) 
 Proof. exact lock_adds_no_entry. Qed.
 Print Assumptions C06_lock_adds_no_entry.
 
-(* refuted for a lazy stack whose lock is derived from member-wise locks: cycling the members never erases its cache *)
-Theorem C06_unlock_erases_lazy_refuted :
-  outcomes repo false w_lazy_members member_cycle_ops = [Done; Done; Done; Done; Done; Done; Done]
-  /\ stale_hit (run repo false w_lazy_members member_cycle_ops) [] MKeyList [] [].
-Proof. exact refuted_lazy_member_cycle. Qed.
-Print Assumptions C06_unlock_erases_lazy_refuted.
-
 (* -------- the decorator's side conditions *)
 Theorem C06_not_consulted_when_unlocked : forall s p n m a k v,
   find_node s p = Some n -> node_locked s n = false -> decorate s p m a k v = (s, Some (Bypass, v)).
@@ -97,62 +93,19 @@ Theorem C06_tensor_never_stored : forall s p m a k, fst (decorate s p m a k VTen
 Proof. exact tensor_never_stored. Qed.
 Print Assumptions C06_tensor_never_stored.
 
-(* -------- cache_sound refuted: writes /repo accepts under lock that leave memoised results observably stale *)
-(* D19 / S4: td[idx] = <non-tensor>: NonTensorData -> NonTensorStack rebinding with ignore_lock=True *)
-Theorem C06_cache_sound_refuted_nontensor_promotion :
-  outcomes repo false w0 D19_ops = [Done; Done] /\ stale_hit (run repo false w0 D19_ops) [] MFlattenKeys [] []
-  /\ stale_hit (run repo false w0 [ORead [] MValuesList [] []; OPromote ["nt"] (lfNS 20 20)]) [] MValuesList [] [].
-Proof. split; [apply refuted_nontensor_promotion|split; [apply refuted_nontensor_promotion|exact refuted_values_list_after_promotion]]. Qed.
-Print Assumptions C06_cache_sound_refuted_nontensor_promotion.
-
-Theorem C06_cache_sound_refuted_make_memmap :
-  outcomes repo false w_mm make_memmap_ops = [Done; Done; Done]
-  /\ stale_hit (run repo false w_mm make_memmap_ops) [] MSortedKeys [] []
-  /\ stale_hit (run repo false w_mm make_memmap_ops) [] MParamCount [] [].
-Proof. exact refuted_make_memmap. Qed.
-Print Assumptions C06_cache_sound_refuted_make_memmap.
-
-Theorem C06_cache_sound_refuted_memmap_on_locked :
-  outcomes repo false w0 memmap_under_lock_ops = [Done; Done; Done] /\ stale_hit (run repo false w0 memmap_under_lock_ops) [] MDetach [] [].
-Proof. exact refuted_memmap_on_locked. Qed.
-Print Assumptions C06_cache_sound_refuted_memmap_on_locked.
-
+(* -------- what remains refuted *)
+(* D62, consequence of D7 (C05): memmap_ flags the nodes without building the lock graph; a nested node unlocks alone *)
 Theorem C06_cache_sound_refuted_memmap_subtree_unlock :
   outcomes repo false w_mm subtree_unlock_ops = [Done; Done; Done; Done] /\ stale_hit (run repo false w_mm subtree_unlock_ops) [] MFlattenKeys [] [].
 Proof. exact refuted_memmap_subtree_unlock. Qed.
 Print Assumptions C06_cache_sound_refuted_memmap_subtree_unlock.
 
-Theorem C06_cache_sound_refuted_metadata_under_lock :
-  stale_hit (run repo false w0 [ORead [] MDetach [] []; OSetNames [] (Some ["u"])]) [] MDetach [] []
-  /\ stale_hit (run repo false w0 [ORead [] MFlattenKeys [] []; OSetBatchSize [] []]) [] MFlattenKeys [] [].
-Proof. split; [apply refuted_names_under_lock|apply refuted_batch_size_under_lock]. Qed.
-Print Assumptions C06_cache_sound_refuted_metadata_under_lock.
-
-(* S11 *)
-Theorem C06_cache_sound_refuted_lazy_member_names :
-  outcomes repo false w_lazy [ORead [] MLazyNames [] []; OSetNames ["#0"] (Some ["u"])] = [Done; Done]
-  /\ stale_hit (run repo false w_lazy [ORead [] MLazyNames [] []; OSetNames ["#0"] (Some ["u"])]) [] MLazyNames [] [].
-Proof. exact refuted_lazy_member_names. Qed.
-Print Assumptions C06_cache_sound_refuted_lazy_member_names.
-
-(* in-place writes alone suffice when a lazy stack is involved: its memoised flatten_keys holds stacked copies *)
+(* D65: in-place writes alone suffice when a lazy stack is involved: its memoised flatten_keys holds stacked copies *)
 Theorem C06_cache_sound_refuted_lazy_materialised :
   outcomes repo false w_lazy [ORead [] MFlattenKeys [] []; OInplace ["#0"; "x"] 9%Z] = [Done; Done]
   /\ stale_hit (run repo false w_lazy [ORead [] MFlattenKeys [] []; OInplace ["#0"; "x"] 9%Z]) [] MFlattenKeys [] [].
 Proof. exact refuted_lazy_materialised. Qed.
 Print Assumptions C06_cache_sound_refuted_lazy_materialised.
-
-(* -------- what changes when the repairs land: with [fix_rebind] and [fix_meta] (erase the caches of the node, of the nodes above it
-   and of its subtree wherever ignore_lock=True rebinds an entry or a names / batch_size setter runs) the FULL statement holds for
-   every history over trees of TensorDicts — non-tensor promotion, make_memmap*, names and batch_size assignment included
-   (memmap_() on a locked tree excluded: that is the lock graph's defect D7/D61) *)
-Theorem C06_cache_sound_if_repaired : forall fx U hk s ops,
-  fixed fx -> objs_consistent U -> Good U s -> Forall (permitted_op U) ops ->
-  forall pre p m a k post, ops = pre ++ ORead p m a k :: post ->
-  forall acc v b, snd (read hk (run fx hk s pre) p m a k) = Some (acc, v, b) ->
-  exists n, find_node (run fx hk s pre) p = Some n /\ v = fresh (run fx hk s pre) n m a k.
-Proof. exact cache_sound_fixed. Qed.
-Print Assumptions C06_cache_sound_if_repaired.
 
 (* -------- translated table (harness/tr_c06.py): every @cache site of /repo's current source is a method the model knows
    (or is listed as not modelled), and every site the model relies on is still decorated *)
@@ -176,9 +129,29 @@ Example C06_ex_sound_hit :
               /\ v = fresh s1 n MFlattenKeys [] []
               /\ observe s1 [] v = ObsItems [([], mt3)] [(["a"], OTensor 7 0 3); (["nt"], ONonTensor KNonTensorData 1); (["n"; "c"], OTensor 2 0 3)].
 Proof. exact sound_hit_after_inplace. Qed.
-Example C06_ex_lazy_names_setter_erases :
-  let s1 := run repo false w_lazy [ORead [] MLazyNames [] []; OSetNames [] (Some ["u"])] in
-  exists acc v, snd (read false s1 [] MLazyNames [] []) = Some (acc, v, Some v) /\ acc = Miss.
-Proof. exact lazy_names_setter_erases. Qed.
+Example C06_ex_repaired_promotion :
+  outcomes repo false w0 D19_ops = [Done; Done] /\ fresh_miss (run repo false w0 D19_ops) [] MFlattenKeys [] []
+  /\ stale_hit (run unrepaired false w0 D19_ops) [] MFlattenKeys [] [].
+Proof. split; [apply repaired_nontensor_promotion|split; [apply repaired_nontensor_promotion|exact unrepaired_nontensor_promotion]]. Qed.
+Example C06_ex_repaired_erases_upwards :
+  fresh_miss (run repo false w0_nested [ORead [] MFlattenKeys [] []; ORead ["n"] MFlattenKeys [] []; OPromote ["n"; "nt"] (lfNS 20 20)]) [] MFlattenKeys [] [].
+Proof. exact repaired_promotion_erases_upwards. Qed.
+Example C06_ex_repaired_make_memmap : fresh_miss (run repo false w_mm make_memmap_ops) [] MSortedKeys [] [].
+Proof. apply repaired_make_memmap. Qed.
+Example C06_ex_repaired_memmap_on_locked : fresh_miss (run repo false w0 memmap_under_lock_ops) [] MDetach [] [].
+Proof. apply repaired_memmap_on_locked. Qed.
+Example C06_ex_repaired_metadata :
+  fresh_miss (run repo false w0 [ORead [] MDetach [] []; OSetNames [] (Some ["u"])]) [] MDetach [] []
+  /\ fresh_miss (run repo false w0 [ORead [] MFlattenKeys [] []; OSetBatchSize [] []]) [] MFlattenKeys [] [].
+Proof. split; [exact repaired_names_under_lock|exact repaired_batch_size_under_lock]. Qed.
+Example C06_ex_derived_lock_not_memoised :
+  exists v, snd (read false w_lazy_members [] MKeyList [] []) = Some (Bypass, v, Some v)
+            /\ nodes (fst (read false w_lazy_members [] MKeyList [] [])) = nodes w_lazy_members.
+Proof. exact derived_lock_not_memoised. Qed.
+Example C06_ex_permitted_history : Forall (permitted_op [none_obj; nontensor_fn])
+  [ORead [] MFlattenKeys [] []; OPromote ["nt"] (lfNS 20 20); OSetNames [] (Some ["u"]); OSetBatchSize ["n"] []; OInplace ["a"] 7%Z; OUnlock []; OLock []].
+Proof.
+  apply Forall_cons; [split; [split; [intros o []|reflexivity]|intros o []]|]. repeat (apply Forall_cons; [exact I|]). constructor.
+Qed.
 Example C06_ex_pins : fresh w0 (mknode [] 1 NTD (Some true) [] false) MNestedKeys [] [("is_leaf", AObj f_tensors)] = VView false false 1 false [f_tensors].
 Proof. reflexivity. Qed.
